@@ -9,7 +9,7 @@ DRIVERS = ["daemon", "alloc", "accept", "startup"]
 def run(ctx, out):
     dcheck.run_property(ctx, out, "C07", "mon_c07", n_quick=300, n_thorough=5000,
                         gen_kw=dict(ws_share=0.4, batches=0.1, malformed=0.06, faults=True),
-                        directed=directed.regressions() + directed.batch_orders() + directed.close_positions(ctx.thorough) + directed.orphan_routes() + directed.reauth_after_fetch() + directed.abandoned_requests(40))
+                        directed=directed.regressions() + directed.batch_orders() + directed.close_positions(ctx.thorough) + directed.orphan_routes() + directed.reauth_after_fetch() + directed.abandoned_requests(40) + directed.write_error_after_progress())
     # small tables: the refusals (index full, routing table full, write buffer full) release what the request had acquired
     dcheck.run_more(ctx, out, "C07", "mon_c07", n_quick=150, n_thorough=2000,
                     gen_kw=dict(variant="small", ws_share=0.3, single=True, close_rate=0.08), tag="small")
